@@ -114,7 +114,7 @@ func main() {
 		return
 	}
 	r := gen.New(gen.Seed())
-	emitFacts(out.Op)
+	p2pexec.EmitFacts(out.Op)
 	witnesses(e)
 	for i := 0; i < gen.Scale(220, 6000); i++ {
 		ltScenario(e, r, i%5 == 4)
@@ -479,6 +479,14 @@ func streamScenario(e *p2pexec.Executor, r *gen.Rand) {
 	rds := []string{"msg", "msg", "msg", "zero", "err"}
 	big := []int64{0, 1, 5, 256, 257, 300, -1, -300, 1 << 62, -(1 << 62), 9223372036854775807, -9223372036854775808}
 	addr := []string{"1", "0", "p", "g"}
+	if r.Chance(2, 3) {
+		s.op(fmt.Sprintf("chain items %d", 1+r.Intn(3)))
+	}
+	// the range check at its edge
+	a := int64(r.Intn(1000))
+	d := []int64{255, 256, 257, 258}[r.Intn(4)]
+	s.op(fmt.Sprintf("dlold msg 1 %d %d", a, a+d))
+	s.op(fmt.Sprintf("dlnew msg %d %d", a, a+d))
 	for i := 0; i < 10+r.Intn(15); i++ {
 		switch r.Pick(2, 4, 3, 4, 3, 2, 2, 2) {
 		case 0:
